@@ -127,7 +127,9 @@ CHECKS = {
              "TLA+ specification observes; the Go race detector runs only as an auxiliary observer in the thorough tier and "
              "is never alarmed on. Lock-order extraction is type-level (Group.mutex is one class); calls through stored "
              "function values and the mutexes of the naza dependency are not extracted; the static 'Unguarded' facts "
-             "cover only functions whose callers are all known.",
+             "cover only functions whose callers are all known. Standard-library functions that call their function argument "
+             "synchronously (sync.Once.Do, sync.Map.Range, sort.Slice ...) are followed; the one-shot sends on the capacity-1 "
+             "waitChan of the rtsp sessions are declared once-channels (one send site, inside sync.Once).",
         ref="6/C20"),
     "C12": dict(
         technique="TLA+ spec Rtp (packer acceptor, reorder network, lal's RtpPacketList / RtpUnpackContainer / TryUnpackOne; "
@@ -249,7 +251,10 @@ CHECKS = {
              "stream for HTTP-TS subscribers (staying, gap-joining, mid-epoch), HLS segments and RTSP session descriptions.",
         note="Relay-push teardown with the publisher is decided in C17 (pn = 0 after the input leaves). 'Pending audio flushed' "
              "is observed through the finalised TS record / HLS files only (C06 / C10 inspect their content). The idle sweep "
-             "is modelled without relay pull / push sessions and GB28181 inputs (their own timeout). KeyCuts / "
+             "is modelled without relay pull / push sessions and GB28181 inputs (their own timeout); RTSP publishers of the sweep "
+             "configuration S3 are set up completely (SETUP interleaved, RECORD), their media-side bytes are RTCP sender "
+             "reports, OPTIONS keep-alives are a model action that does not count as sending, and an RTSP player's DESCRIBE "
+             "is answered at once iff a described input is attached. KeyCuts / "
              "JoinStartsInTime of Republish apply only to epochs without AAC; RTSP subscribers staying across a republish "
              "and non-RTMP predecessors / successors are not covered. Short epochs that end inside the probe stage are included; "
              "an RTSP subscriber staying across a republish is decided only for 'no predecessor content' (AcceptStay), the rest "
